@@ -35,15 +35,20 @@ def run_scenario(root, nenf, actions, seed):
     shared = [mk_default(d) for d in SHARED]
     before = snapshot(shared)
     enfs = []
+    share = nenf >= 2 and seed % 3 == 0
     for i in range(nenf):
-        r = os.path.join(root, 'e%d' % i)
-        fs = FsSim(r)
-        fs.mkdir('policy.d')
-        if i != 1:
-            fs.write_main({'alpha': 'role:file%d' % i} if i == 0 else {'old_alpha': 'role:oldfile', 'zeta': '@'}, 'yaml')
-        if i == 2:
-            fs.write('policy.d', 'x.yaml', {'beta': 'role:dir2'}, 'json')
-        fs.sync()
+        if share and i == 1:
+            # two enforcers on the SAME files (same paths), differing only in an option
+            r, fs = os.path.join(root, 'e0'), enfs[0]['fs']
+        else:
+            r = os.path.join(root, 'e%d' % i)
+            fs = FsSim(r)
+            fs.mkdir('policy.d')
+            if i != 1:
+                fs.write_main({'alpha': 'role:file%d' % i} if i == 0 else {'old_alpha': 'role:oldfile', 'zeta': '@'}, 'yaml')
+            if i == 2:
+                fs.write('policy.d', 'x.yaml', {'beta': 'role:dir2'}, 'json')
+            fs.sync()
         from oslo_config import cfg
         from oslo_policy import policy, opts
         from loadsim import DIRS, MAIN
@@ -69,7 +74,11 @@ def run_scenario(root, nenf, actions, seed):
                         {'old_alpha': 'role:oldovr%d' % x['k'], 'old_delta': 'role:od'},
                         {},
                         {'alpha': 'role:newovr%d' % x['k']}]
-            x['fs'].write('policy.d', 'x.yaml', contents[(x['k'] + idx) % 4], 'yaml')
+            if x['fs'].main is not None and (x['k'] + seed) % 2 == 0:
+                # the policy file itself is edited, the directory left alone
+                x['fs'].write_main({'alpha': 'role:mainedit%d_%d' % (idx, x['k']), 'zeta': '@'}, 'yaml')
+            else:
+                x['fs'].write('policy.d', 'x.yaml', contents[(x['k'] + idx) % 4], 'yaml')
             x['fs'].sync()
             x['e'].load_rules()
         elif act == 'load':
@@ -82,7 +91,7 @@ def run_scenario(root, nenf, actions, seed):
         evals += 1
         o = observe(x['e'])
         # loading again yields the same effective policy as loading once
-        if x['obs'] and act != 'edit' and o['rules'] != x['obs'][-1]['rules']:
+        if x['obs'] and act != 'edit' and x.get('seen_clock') == x['fs'].clock and o['rules'] != x['obs'][-1]['rules']:
             viol = ('not-idempotent', 'enforcer %d: %s changed the effective policy: %r -> %r'
                     % (idx, act, x['obs'][-1]['rules'], o['rules']),
                     {'kind': 'failing-input', 'suite': 'spec-c12',
@@ -104,6 +113,7 @@ def run_scenario(root, nenf, actions, seed):
             break
         x['steps'].append([x['fs'].wire(), force])
         x['obs'].append(o)
+        x['seen_clock'] = x['fs'].clock      # the files as this enforcer last saw them (another enforcer may share them)
         after = snapshot(shared)
         if after != before:
             viol = ('registered-mutated', 'the RuleDefault objects the service passed in were altered by %s on enforcer %d'
@@ -149,6 +159,12 @@ def run(run, binfo):
                 scen.append((nenf, list(seq), len(scen)))
     if tier == 'quick':
         scen = [s for s in scen if s[0] == 1 or len(s[1]) <= 2] + [s for s in scen if s[0] == 2 and len(s[1]) == 3][::5]
+    # two enforcers on the same files: every (first action of A, first action of B, who edits, what the other does next)
+    k = 0
+    for a1, a2, a3 in itertools.product(('load', 'enforce', 'forced'), repeat=3):
+        for ed, nxt in ((0, 1), (1, 0)):
+            scen.append((2, [(0, a1), (1, a2), (ed, 'edit'), (nxt, a3), (ed, 'enforce')], 3 * (len(scen) + k)))
+            k += 2      # keeps the seed a multiple of three: the shared-files variant
     nexh = len(scen)
     nrand = 40 if tier == 'quick' else 1500
     for _ in range(nrand):
@@ -180,7 +196,7 @@ def run(run, binfo):
                        'input': c, 'model': m, 'observed': o, 'count': len(bad_corr)})
     run.rule = ('interleavings of {load, forced load, enforce, edit file} up to length %d over 1-2 enforcers (exhaustive, strided for '
                 'two enforcers in quick) and %d random interleavings of 4-12 actions over 1-3 enforcers, each enforcer with its own '
-                'files and enforce_new_defaults value, all registering the SAME list of RuleDefault/DeprecatedRule objects (renamed, '
+                'files (in a third of the scenarios two enforcers read the SAME files) and enforce_new_defaults value, all registering the SAME list of RuleDefault/DeprecatedRule objects (renamed, '
                 'same-name and plain): effective policy after each non-edit action equals the previous one and after every action equals that of a fresh enforcer loading once, deep attribute '
                 'snapshot (incl. object identities of the parsed checks) of the shared objects unchanged, and every enforcer\'s '
                 'state equals the pure model run on its own history alone. non-trivial = distinct interleavings' % (maxlen, nrand))
